@@ -54,3 +54,109 @@ package rules
 //@   requires g != nil
 //@   ghost at call UniqueID$1#1: check s == g.Selector
 //@   ghost at call UniqueID$1#4: check policy != nil ==> s == polString(*policy)
+
+//@ -- ---------------------------------------------------------------- C08: the mark-bit match-block protocol
+//@ -- A rule with several match criteria that cannot be expressed in one dataplane rule is rendered as a sequence
+//@ -- of BLOCKS, each a list of rules that set or clear mark bits on the packet.  The contracts follow the mark
+//@ -- of ONE ARBITRARY PACKET through the rendered rules (ghost c08Mark): a rule whose match holds for the packet
+//@ -- (ghost c08Fire; for criteria on addresses/ports an arbitrary fact about the packet, for a mark test the
+//@ -- current ghost mark) applies its action to the ghost mark.  The protocol invariant, from the code's own
+//@ -- comments: between blocks, the AllBlocks bit is set iff every block so far matched the packet, and the
+//@ -- scratch (ThisBlock) bit is clear.
+//@ ghost c08Mark uint32
+//@ ghost c08Fire bool
+//@ ghost c08Blk bool
+//@ ghost c08All bool
+//@ ghost c08Was bool
+//@ spec func pktMatches(m generictables.MatchCriteria) bool
+//@ spec macro c08Bits(r *matchBlockBuilder) bool = r != nil && r.markAllBlocksPass != 0 && r.markThisBlockPass != 0 && r.markAllBlocksPass & r.markThisBlockPass == 0
+//@ spec macro c08Inv(r *matchBlockBuilder) bool = (r.UsingMatchBlocks ==> ((c08Mark & r.markAllBlocksPass != 0) == c08All) && (c08Mark & r.markThisBlockPass == 0)) && (r.doneFirstPositiveMatchBlock ==> r.UsingMatchBlocks)
+//@ spec macro c08Same(r *matchBlockBuilder) bool = r.markAllBlocksPass == old(r.markAllBlocksPass) && r.markThisBlockPass == old(r.markThisBlockPass)
+
+//@ -- the initial rule: resets both bits to the given start value, once
+//@ func (*matchBlockBuilder).maybeAppendInitialRule
+//@   property C08
+//@   option safety off
+//@   option stable (*matchBlockBuilder).UsingMatchBlocks, (*matchBlockBuilder).doneFirstPositiveMatchBlock, (*matchBlockBuilder).markAllBlocksPass, (*matchBlockBuilder).markThisBlockPass
+//@   requires c08Bits(r)
+//@   ghost at call SetMaskedMark: c08Mark = (c08Mark & (0xffffffff ^ arg2)) | arg1
+//@   ensures r.UsingMatchBlocks && c08Same(r) && r.doneFirstPositiveMatchBlock == old(r.doneFirstPositiveMatchBlock)
+//@   ensures old(r.UsingMatchBlocks) ==> c08Mark == old(c08Mark)
+//@   ensures !old(r.UsingMatchBlocks) ==> c08Mark == (old(c08Mark) & (0xffffffff ^ (r.markAllBlocksPass | r.markThisBlockPass))) | markBitsToSetInitially
+//@   ensures c08Fire == old(c08Fire) && c08Blk == old(c08Blk) && c08All == old(c08All) && c08Was == old(c08Was)
+
+//@ func (*matchBlockBuilder).positiveBlockMarkToSet
+//@   property C08
+//@   requires r != nil
+//@   ensures res == (r.doneFirstPositiveMatchBlock ? r.markThisBlockPass : r.markAllBlocksPass)
+//@   assigns nothing
+
+//@ -- end of a positive block: AllBlocks &&= ThisBlock (for every block after the first)
+//@ func (*matchBlockBuilder).finishPositiveBlock
+//@   property C08
+//@   option safety off
+//@   option stable (*matchBlockBuilder).UsingMatchBlocks, (*matchBlockBuilder).doneFirstPositiveMatchBlock, (*matchBlockBuilder).markAllBlocksPass, (*matchBlockBuilder).markThisBlockPass
+//@   requires c08Bits(r)
+//@   ghost at call MarkClear: c08Fire = (c08Mark & arg1 == 0)
+//@   ghost at call ClearMark: c08Mark = c08Fire ? (c08Mark & (0xffffffff ^ arg1)) : c08Mark
+//@   ensures r.doneFirstPositiveMatchBlock && c08Same(r) && r.UsingMatchBlocks == old(r.UsingMatchBlocks)
+//@   ensures !old(r.doneFirstPositiveMatchBlock) ==> c08Mark == old(c08Mark)
+//@   ensures old(r.doneFirstPositiveMatchBlock) ==> c08Mark == ((old(c08Mark) & r.markThisBlockPass == 0) ? (old(c08Mark) & (0xffffffff ^ r.markAllBlocksPass)) : old(c08Mark))
+//@   ensures c08Blk == old(c08Blk) && c08All == old(c08All) && c08Was == old(c08Was)
+
+//@ -- A positive block (any of the CIDRs / port lists must match).  Positive blocks are rendered before negated
+//@ -- ones, so a positive block is either the very first block or follows another positive block.
+//@ func (*matchBlockBuilder).AppendCIDRMatchBlock
+//@   property C08
+//@   option safety off
+//@   option stable (*matchBlockBuilder).UsingMatchBlocks, (*matchBlockBuilder).doneFirstPositiveMatchBlock, (*matchBlockBuilder).markAllBlocksPass, (*matchBlockBuilder).markThisBlockPass
+//@   requires c08Bits(r) && c08Inv(r) && (r.UsingMatchBlocks ==> r.doneFirstPositiveMatchBlock)
+//@   ghost at call maybeAppendInitialRule: c08Was = old(r.UsingMatchBlocks) ; c08Blk = false
+//@   ghost at call MatchNet: c08Fire = pktMatches(res)
+//@   ghost at call SetMark: c08Mark = c08Fire ? (c08Mark | arg1) : c08Mark ; c08Blk = c08Blk || c08Fire
+//@   ghost at call finishPositiveBlock: c08All = (c08Was ? (c08All && c08Blk) : c08Blk)
+//@   ensures c08Same(r) && r.UsingMatchBlocks && r.doneFirstPositiveMatchBlock
+//@   ensures c08All == (old(r.UsingMatchBlocks) ? (old(c08All) && c08Blk) : c08Blk)
+//@   ensures (c08Mark & r.markAllBlocksPass != 0) == c08All
+//@   ensures c08Mark & r.markThisBlockPass == 0
+//@   loop 1 invariant c08Same(r) && r.UsingMatchBlocks && r.doneFirstPositiveMatchBlock == old(r.doneFirstPositiveMatchBlock) && c08Was == old(r.UsingMatchBlocks) && c08All == old(c08All) && markToSet == (old(r.doneFirstPositiveMatchBlock) ? r.markThisBlockPass : r.markAllBlocksPass)
+//@   loop 1 invariant !old(r.doneFirstPositiveMatchBlock) ==> ((c08Mark & r.markAllBlocksPass != 0) == c08Blk) && (c08Mark & r.markThisBlockPass == 0)
+//@   loop 1 invariant old(r.doneFirstPositiveMatchBlock) ==> ((c08Mark & r.markThisBlockPass != 0) == c08Blk) && ((c08Mark & r.markAllBlocksPass != 0) == old(c08All))
+
+//@ func (*matchBlockBuilder).AppendPortMatchBlock
+//@   property C08
+//@   option safety off
+//@   option stable (*matchBlockBuilder).UsingMatchBlocks, (*matchBlockBuilder).doneFirstPositiveMatchBlock, (*matchBlockBuilder).markAllBlocksPass, (*matchBlockBuilder).markThisBlockPass
+//@   requires c08Bits(r) && c08Inv(r) && (r.UsingMatchBlocks ==> r.doneFirstPositiveMatchBlock)
+//@   ghost at call maybeAppendInitialRule: c08Was = old(r.UsingMatchBlocks) ; c08Blk = false
+//@   ghost at call AppendMatchPorts: c08Fire = pktMatches(res)
+//@   ghost at call MatchIPPortIPSet: c08Fire = pktMatches(res)
+//@   ghost at call SetMark: c08Mark = c08Fire ? (c08Mark | arg1) : c08Mark ; c08Blk = c08Blk || c08Fire
+//@   ghost at call finishPositiveBlock: c08All = (c08Was ? (c08All && c08Blk) : c08Blk)
+//@   ensures c08Same(r) && r.UsingMatchBlocks && r.doneFirstPositiveMatchBlock
+//@   ensures c08All == (old(r.UsingMatchBlocks) ? (old(c08All) && c08Blk) : c08Blk)
+//@   ensures (c08Mark & r.markAllBlocksPass != 0) == c08All
+//@   ensures c08Mark & r.markThisBlockPass == 0
+//@   loop 1 invariant c08Same(r) && r.UsingMatchBlocks && r.doneFirstPositiveMatchBlock == old(r.doneFirstPositiveMatchBlock) && c08Was == old(r.UsingMatchBlocks) && c08All == old(c08All) && markToSet == (old(r.doneFirstPositiveMatchBlock) ? r.markThisBlockPass : r.markAllBlocksPass)
+//@   loop 1 invariant !old(r.doneFirstPositiveMatchBlock) ==> ((c08Mark & r.markAllBlocksPass != 0) == c08Blk) && (c08Mark & r.markThisBlockPass == 0)
+//@   loop 1 invariant old(r.doneFirstPositiveMatchBlock) ==> ((c08Mark & r.markThisBlockPass != 0) == c08Blk) && ((c08Mark & r.markAllBlocksPass != 0) == old(c08All))
+//@   loop 2 invariant c08Same(r) && r.UsingMatchBlocks && r.doneFirstPositiveMatchBlock == old(r.doneFirstPositiveMatchBlock) && c08Was == old(r.UsingMatchBlocks) && c08All == old(c08All) && markToSet == (old(r.doneFirstPositiveMatchBlock) ? r.markThisBlockPass : r.markAllBlocksPass)
+//@   loop 2 invariant !old(r.doneFirstPositiveMatchBlock) ==> ((c08Mark & r.markAllBlocksPass != 0) == c08Blk) && (c08Mark & r.markThisBlockPass == 0)
+//@   loop 2 invariant old(r.doneFirstPositiveMatchBlock) ==> ((c08Mark & r.markThisBlockPass != 0) == c08Blk) && ((c08Mark & r.markAllBlocksPass != 0) == old(c08All))
+
+//@ -- A negated block (none of the CIDRs may match): every matching rule clears the AllBlocks bit, which starts
+//@ -- set if this is the first block.
+//@ func (*matchBlockBuilder).AppendNegatedCIDRMatchBlock
+//@   property C08
+//@   option safety off
+//@   option stable (*matchBlockBuilder).UsingMatchBlocks, (*matchBlockBuilder).doneFirstPositiveMatchBlock, (*matchBlockBuilder).markAllBlocksPass, (*matchBlockBuilder).markThisBlockPass
+//@   requires c08Bits(r) && c08Inv(r)
+//@   ghost at call maybeAppendInitialRule: c08Was = old(r.UsingMatchBlocks) ; c08Blk = false ; c08All = (old(r.UsingMatchBlocks) ? c08All : true)
+//@   ghost at call MatchNet: c08Fire = pktMatches(res)
+//@   ghost at call ClearMark: c08Mark = c08Fire ? (c08Mark & (0xffffffff ^ arg1)) : c08Mark ; c08Blk = c08Blk || c08Fire ; c08All = c08All && !c08Fire
+//@   ensures c08Same(r) && r.UsingMatchBlocks && r.doneFirstPositiveMatchBlock == old(r.doneFirstPositiveMatchBlock)
+//@   ensures c08All == ((old(r.UsingMatchBlocks) ? old(c08All) : true) && !c08Blk)
+//@   ensures (c08Mark & r.markAllBlocksPass != 0) == c08All
+//@   ensures c08Mark & r.markThisBlockPass == 0
+//@   loop 1 invariant c08Same(r) && r.UsingMatchBlocks && r.doneFirstPositiveMatchBlock == old(r.doneFirstPositiveMatchBlock)
+//@   loop 1 invariant c08All == ((old(r.UsingMatchBlocks) ? old(c08All) : true) && !c08Blk) && ((c08Mark & r.markAllBlocksPass != 0) == c08All) && (c08Mark & r.markThisBlockPass == 0)
